@@ -193,3 +193,88 @@ pub fn check_liveness(obs: &Observed) -> Option<Viol> {
     }
     None
 }
+
+/// Plan for signals sent by the simulator to the main shell (pid 2) while the
+/// script says it is armed (`mark armed` ... `mark disarmed`); trap actions
+/// announce themselves with `mark tb <name>` / `mark te <name>`.
+#[derive(Clone, Copy, Debug)]
+pub struct SigPlan {
+    pub inject: bool,
+    /// the next signal is sent only after the previous action finished
+    pub spaced: bool,
+    /// permille per scheduler step
+    pub rate: u32,
+    pub max: u32,
+    /// SIGUSR2: 0 never sent, 1 has a command trap, 2 is ignored
+    pub second: u8,
+}
+
+/// Environment: sends yash_env::system::r#virtual::SIGUSR1 / yash_env::system::r#virtual::SIGUSR2 to the main shell at seeded steps while
+/// the script is armed (its traps are installed).
+pub fn signal_env(p: SigPlan) -> impl FnMut(&mut Sim, u64) -> bool + use<> {
+    let inject = p.inject;
+    let spaced = p.spaced;
+    let rate = p.rate;
+    let max = p.max;
+    let trap2 = p.second;
+    let mut seen = 0usize;
+    let mut armed = false;
+    let mut ends = 0u32;
+    let mut sent = 0u32;
+    let mut sent_trapped = 0u32;
+    move |sim: &mut Sim, _step: u64| {
+        if !inject {
+            return true;
+        }
+        {
+            let h = sim.ctl.history.borrow();
+            for e in &h[seen..] {
+                if e.kind == "mark" && e.pid == 2 {
+                    if e.text.starts_with("armed") {
+                        armed = true;
+                    } else if e.text.starts_with("disarmed") {
+                        armed = false;
+                    } else if e.text.starts_with("te ") {
+                        ends += 1;
+                    }
+                }
+            }
+            seen = h.len();
+        }
+        if !armed || sent >= max {
+            return true;
+        }
+        if spaced && ends < sent_trapped {
+            return true;
+        }
+        if !sim.ctl.decider.borrow_mut().chance(crate::rng::tag::ENV, rate) {
+            return true;
+        }
+        let alive = sim
+            .state
+            .borrow()
+            .processes
+            .get(&yash_env::job::Pid(2))
+            .is_some_and(|p| p.state() == yash_env::job::ProcessState::Running);
+        if !alive {
+            return true;
+        }
+        let second = trap2 != 0 && sim.ctl.decider.borrow_mut().choose(crate::rng::tag::ENV, 3) == 0;
+        let sig = if second { yash_env::system::r#virtual::SIGUSR2 } else { yash_env::system::r#virtual::SIGUSR1 };
+        let sys = yash_env::system::r#virtual::VirtualSystem {
+            state: std::rc::Rc::clone(&sim.state),
+            process_id: yash_env::job::Pid(1),
+        };
+        sim.ctl.quiet.set(true);
+        { use yash_env::system::SendSignal as _; drop(sys.kill(yash_env::job::Pid(2), Some(sig))); }
+        sim.ctl.quiet.set(false);
+        sent += 1;
+        if !second || trap2 == 1 {
+            sent_trapped += 1;
+        }
+        sim.ctl.count("signal_injected");
+        sim.ctl.record(1, "deliver", if second { 2 } else { 1 }, 0, "");
+        true
+    }
+}
+
